@@ -11,6 +11,9 @@ def registry():
     reg = {}
     for pid in ("C01", "C02", "C03", "C10", "C15"):
         reg[pid] = (lambda p=pid: create.make(p))
+    from mc.checks import recheck
+    for pid in ("C04", "C05", "C16"):
+        reg[pid] = (lambda p=pid: recheck.make(p))
     return reg
 
 
